@@ -261,15 +261,18 @@ fn cmd_algebra(a: &Args) -> Ev {
     let mut ev = Ev::new("C17");
     let mut rj = a.json();
     rj["cmd"] = json!("algebra");
-    let exhaustive = kind == "u8" && a.u("exhaustive", 1) == 1;
+    let exhaustive = (kind == "u8" && a.u("exhaustive", 1) == 1) || (kind == "u16" && a.u("exhaustive", 0) == 1);
     let per_len = a.u("per_len", 4) as usize;
     let max_pairs = a.u("max_pairs", 6_000_000);
     fn go<K: kinds::Kind>(ev: &mut Ev, seed: u64, ex: bool, per_len: usize, max_pairs: u64, rj: serde_json::Value) {
         algebra::algebra::<K>(ev, seed, ex, per_len, max_pairs, rj)
     }
     with_kind!(kind.as_str(), go, &mut ev, seed, exhaustive, per_len, max_pairs, rj);
-    if exhaustive {
+    if exhaustive && kind == "u8" {
         ev.count("exhaustive_u8", 1);
+    }
+    if exhaustive && kind == "u16" {
+        ev.count("exhaustive_unary_u16", 1);
     }
     ev
 }
